@@ -506,7 +506,9 @@ def run(tier, seed, replay=None):
         "a random rigid motion) / shallow (B turned by 1e-7..5e-3 rad, or the point a tiny offset off a special point / the axis: inside "
         "the epsilon bands) / small (sizes 0.01..0.06) / coplanar (A built inside the plane of a planar B, incl. short corner-cutting "
         "segments) / axis (point, line, segment exactly on the axis of circle, disk, cylinder, plane; incl. normals with a tiny z "
-        "component) / corpus.  Quick tier: 120 (360 for functions with many paths) stratified candidates per function are traced line by "
+        "component) / aniso (the sizes of an ellipsoid, box, cylinder or rectangle drawn independently over [0.01, 100]: needles and plates; "
+        "the other primitive near the surface / a short axis / far / inside) / corpus.  The default arguments of all 34 functions (epsilon, "
+        "max_iter, ...) are re-read from the source and compared with what the models assume.  Quick tier: 120 (360 for functions with many paths) stratified candidates per function are traced line by "
         "line in an interpreted run and a stratified base of 24 + every candidate that raised + path-guided additions (rarely executed "
         "lines first, axis-index permutations count as different lines) are kept: 36..90 per function; thorough: 600 per function, "
         "weighted random mix.  Every case is additionally called a second time with the argument arrays of the previous call of that "
